@@ -1,15 +1,15 @@
 """./check <ID> [--tier quick|thorough] [--replay FILE]
 
 exit 0  every obligation of the property discharged (open known findings are printed as KNOWN-FINDING)
-exit 1  VIOLATION property=<id> replay=<path>   (an obligation that is not a listed finding failed semantically)
-exit 2  UNDECIDED (lost anchor, construct outside the verifier's dialect, rlimit, tool crash, vacuity probe, assumption not discharged)
+exit 1  VIOLATION property=<id> replay=<path>   (an obligation that is not a listed finding failed semantically, or a
+        stand-in found a concrete failing input on the real code while the deductive verdict was undecided)
+exit 2  UNDECIDED (lost anchor, construct outside the verifier's dialect, rlimit, tool crash, vacuity probe, assumption
+        not discharged) and the property's bounded stand-ins found no failing input
 """
 import argparse
-import hashlib
 import json
 import os
 import re
-import shutil
 import sys
 import time
 
@@ -35,11 +35,7 @@ def load_findings():
     return json.load(open(p, encoding='utf-8')).get('findings', [])
 
 
-class Ctx:
-    pass
-
-
-def build(prop, tier, seed, workdir, refine=()):
+def build(prop, tier, seed, workdir, refine=(), opaque=()):
     """generate the Verus file for a property; returns (info, obligations, gen_path)"""
     from . import cells
     cfg = PROPS[prop]
@@ -54,7 +50,7 @@ def build(prop, tier, seed, workdir, refine=()):
         t, o = lemmas.load(os.path.join(VERIF, 'lemmas', name + '.rs'), name.upper())
         texts.append(t)
     # first pass without generated cells to learn keycodes / layouts
-    pre = gen.generate(REPO, os.path.join(VERIF, 'contracts'))
+    pre = gen.generate(REPO, os.path.join(VERIF, 'contracts'), opaque=opaque)
     aux = {}
     for g in cfg.get('cellgens', []):
         t, o, a = getattr(cells, g)(pre, prop, tier, VERIF, refine)
@@ -63,7 +59,7 @@ def build(prop, tier, seed, workdir, refine=()):
         aux.update(a or {})
     os.makedirs(workdir, exist_ok=True)
     gen_path = os.path.join(workdir, 'gen.rs')
-    info = gen.generate(REPO, os.path.join(VERIF, 'contracts'), texts, out_path=gen_path)
+    info = gen.generate(REPO, os.path.join(VERIF, 'contracts'), texts, out_path=gen_path, opaque=opaque)
     info.aux = aux
     return info, obligations, gen_path
 
@@ -81,6 +77,23 @@ def relevant_obligations(prop, info, lemma_obs):
                 R[f['key'] + '/safety'] = {'kind': 'safety', 'props': ['C08'], 'fn': f['key'],
                                           'text': 'no overflow / out-of-range shift / reachable panic in the body of %s under its precondition' % f['key']}
     return R
+
+
+def dependencies(prop, info, R):
+    """functions of /repo whose contract or denotation this property's argument rests on"""
+    deps = set(ob['fn'] for ob in R.values() if ob.get('fn'))
+    kind = PROPS[prop].get('denotations', '')
+    for f in info.functions:
+        k = f['key']
+        if kind in ('layouts', 'all') and (k.startswith('KeyboardLayout for ') or k.startswith('Modifiers::is_')):
+            deps.add(k)
+        if kind in ('set1', 'tables', 'all') and k.startswith('ScancodeSet1::map_'):
+            deps.add(k)
+        if kind in ('set2', 'tables', 'all') and k.startswith('ScancodeSet2::map_'):
+            deps.add(k)
+        if kind == 'all':
+            deps.add(k)
+    return deps
 
 
 def classify(prop, failures, R, info):
@@ -114,33 +127,58 @@ def classify(prop, failures, R, info):
     return mine, tool, other
 
 
-def write_replay(prop, f, R, info, res, extra=None):
+def offending_functions(tool, info):
+    """functions of /repo that a tool (non-semantic) diagnostic points into"""
+    keys = set()
+    for f in tool:
+        if f.oid and f.oid.endswith('/derived'):
+            keys.add(f.oid[:-len('/derived')])
+        for (a, b, p, l) in f.lines:
+            r = verus.enclosing(info.region_ranges, a)
+            if r and r[2] == 'derived':
+                keys.add(r[3])
+                continue
+            fr = verus.enclosing(info.fn_ranges, a)
+            if fr and not (r and r[2] in ('lemma', 'ghost')):
+                keys.add(fr[2])
+    return keys
+
+
+def write_replay(prop, oid, ob, info, res, failure=None, extra=None):
     d = os.path.join(SCRATCH, 'out', 'replay', prop)
     os.makedirs(d, exist_ok=True)
-    path = os.path.join(d, sanitize(f.oid) + '.json')
-    ob = R.get(f.oid) or info.obligations.get(f.oid.split('/call:')[-1], {}) if f.oid else {}
-    lines = info.text.split('\n')
+    path = os.path.join(d, sanitize(oid) + '.json')
     excerpt = []
-    for (a, b, p, l) in f.lines[:4]:
-        for ln in range(a, min(b, a + 8) + 1):
-            excerpt.append('%d: %s' % (ln, lines[ln - 1] if ln - 1 < len(lines) else ''))
+    if failure is not None and info is not None:
+        lines = info.text.split('\n')
+        for (a, b, p, l) in failure.lines[:4]:
+            for ln in range(a, min(b, a + 8) + 1):
+                excerpt.append('%d: %s' % (ln, lines[ln - 1] if ln - 1 < len(lines) else ''))
     rec = {
         'property': prop,
-        'obligation': f.oid,
-        'obligation_text': ob.get('text', ''),
-        'obligation_source': ob.get('src', ''),
-        'verifier': 'verus ' + res.version,
-        'verifier_message': f.message,
-        'verifier_spans': f.detail,
+        'obligation': oid,
+        'obligation_text': (ob or {}).get('text', ''),
+        'obligation_source': (ob or {}).get('src', ''),
+        'verifier': 'verus ' + (res.version if res else ''),
+        'verifier_message': failure.message if failure is not None else 'undecided by the deductive verifier; found by a stand-in on the real code',
+        'verifier_spans': failure.detail if failure is not None else '',
         'generated_file_excerpt': excerpt,
-        'checker_cmd': res.cmd,
+        'checker_cmd': res.cmd if res else '',
         'counterexample': None,
-        'replay': 're-run `./check %s --replay <this file>`: re-verifies this obligation against /repo and, when a concrete input is recorded, executes it natively' % prop,
+        'replay': 're-run `./check %s --replay <this file>`: executes the recorded concrete input natively on /repo when there is one, otherwise re-verifies the obligation' % prop,
     }
     if extra:
         rec.update(extra)
     json.dump(rec, open(path, 'w', encoding='utf-8'), indent=1, ensure_ascii=False)
     return path
+
+
+def summarize_dropped(dropped):
+    s = {}
+    for d in dropped:
+        k = d['what'] if not d['what'].startswith('inner doc') else 'inner doc comment lines'
+        s[k] = s.get(k, 0) + 1
+    return s
 
 
 def main(argv=None):
@@ -168,152 +206,163 @@ def main(argv=None):
         'coverage': {'obligations': 0, 'discharged': 0, 'checker_cmd': '', 'trusted_base': [], 'samples': []},
         'assumptions': list(PROPS[prop]['assume']), 'wall_s': 0.0, 'violations': 0,
     }
+    cov = evidence['coverage']
 
     def finish(code, note=None):
         evidence['wall_s'] = round(time.time() - t0, 2)
         if note:
-            evidence['coverage']['explanation'] = note
+            cov['explanation'] = note
         os.makedirs(os.path.join(SCRATCH, 'evidence'), exist_ok=True)
         json.dump(evidence, open(os.path.join(SCRATCH, 'evidence', prop + '.json'), 'w', encoding='utf-8'), indent=1, ensure_ascii=False)
         return code
 
-    try:
-        info, lemma_obs, gen_path = build(prop, tier, seed, workdir)
-    except (ExtractError, SpecError) as e:
-        print('UNDECIDED property=%s reason=extraction: %s' % (prop, e))
-        evidence['level'] = 'other'
-        return finish(2, 'undecided: extraction failed: %s' % e)
-
-    R = relevant_obligations(prop, info, lemma_obs)
-    res = verus.run(gen_path, info, seed=seed, multiple_errors=max(50, len(info.cell_lines) + 20))
-    mine, tool, other = classify(prop, res.failures, R, info)
-    # refine failing coarse units cell by cell so that the failing cells are named
-    coarse_failed = sorted(set(R[f.oid]['unit'] for f in mine if f.oid in R and R[f.oid]['kind'] == 'coarse' and f.kind == 'semantic'))
-    refined = False
-    if coarse_failed and tier != 'thorough' and not tool:
-        try:
-            info, lemma_obs, gen_path = build(prop, tier, seed, workdir, refine=tuple(coarse_failed))
-        except (ExtractError, SpecError) as e:
-            print('UNDECIDED property=%s reason=extraction: %s' % (prop, e))
-            evidence['level'] = 'other'
-            return finish(2, 'undecided: extraction failed: %s' % e)
-        R = relevant_obligations(prop, info, lemma_obs)
-        res = verus.run(gen_path, info, seed=seed, multiple_errors=max(50, len(info.cell_lines) + 20))
-        mine, tool, other = classify(prop, res.failures, R, info)
-        refined = True
-    # a coarse lemma whose unit also has failing cells is subsumed by those cells
-    units_with_failing_cells = set(R[f.oid]['unit'] for f in mine if f.oid in R and R[f.oid]['kind'] == 'cell')
-    kept = []
-    for f in mine:
-        ob = R.get(f.oid)
-        if ob and ob['kind'] == 'coarse' and f.kind == 'semantic':
-            if ob['unit'] in units_with_failing_cells:
-                continue
-            if refined or tier == 'thorough':
-                # quantified form fails although every cell verifies: solver incompleteness, not a violation
-                f.kind = 'undecided'
-                f.message = 'quantified lemma not proved although all its cells verify: ' + f.message
-        kept.append(f)
-    mine = kept
-
-    # --- thorough extras
-    extra_cov = {}
     undecided_reasons = []
-    if tier == 'thorough':
-        from . import thorough
-        thorough.run(prop, info, gen_path, R, seed, extra_cov, undecided_reasons, mine)
+    info = R = res = None
+    mine, tool, other = [], [], []
+    opaque = set()
+    lemma_obs = {}
 
-    # --- assumptions discharged by Kani on the real compiled crate
+    # ------------------------------------------------------------------ deductive verdict
+    try:
+        for attempt in range(4):
+            info, lemma_obs, gen_path = build(prop, tier, seed, workdir, opaque=tuple(sorted(opaque)))
+            R = relevant_obligations(prop, info, lemma_obs)
+            res = verus.run(gen_path, info, seed=seed, multiple_errors=50)
+            mine, tool, other = classify(prop, res.failures, R, info)
+            if not tool:
+                break
+            new = offending_functions(tool, info) - opaque
+            if not new:
+                break
+            # the verifier cannot read these functions: leave them unverified and decide the rest
+            opaque |= new
+        # refine failing coarse units cell by cell so that the failing cells are named
+        coarse_failed = sorted(set(R[f.oid]['unit'] for f in mine if f.oid in R and R[f.oid]['kind'] == 'coarse' and f.kind == 'semantic'))
+        refined = False
+        if coarse_failed and tier != 'thorough' and not tool:
+            info, lemma_obs, gen_path = build(prop, tier, seed, workdir, refine=tuple(coarse_failed), opaque=tuple(sorted(opaque)))
+            R = relevant_obligations(prop, info, lemma_obs)
+            res = verus.run(gen_path, info, seed=seed, multiple_errors=50)
+            mine, tool, other = classify(prop, res.failures, R, info)
+            refined = True
+        # a coarse lemma whose unit also has failing cells is subsumed by those cells
+        units_with_failing_cells = set(R[f.oid]['unit'] for f in mine if f.oid in R and R[f.oid]['kind'] == 'cell')
+        kept = []
+        for f in mine:
+            ob = R.get(f.oid)
+            if ob and ob['kind'] == 'coarse' and f.kind == 'semantic':
+                if ob['unit'] in units_with_failing_cells:
+                    continue
+                if refined or tier == 'thorough':
+                    # quantified form fails although every cell verifies: solver incompleteness, not a violation
+                    f.kind = 'undecided'
+                    f.message = 'quantified lemma not proved although all its cells verify: ' + f.message
+            kept.append(f)
+        mine = kept
+    except (ExtractError, SpecError) as e:
+        undecided_reasons.append('extraction: %s' % e)
+        info = None
+
+    deductive_ok = info is not None
+    if deductive_ok:
+        deps = dependencies(prop, info, R)
+        lost_here = [k for (k, props) in info.lost if prop in props or k in deps]
+        opaque_here = sorted(k for k in opaque if k in deps)
+        if lost_here:
+            undecided_reasons.append('lost-anchor: function(s) under contract no longer exist: ' + ', '.join(lost_here))
+        if info.lost_ghosts:
+            undecided_reasons.append('lost-anchor: ghost section(s) with no matching item: ' + ', '.join(info.lost_ghosts))
+        if opaque_here:
+            undecided_reasons.append('function(s) outside the verifier\'s dialect, left unverified: ' + ', '.join(opaque_here))
+        if tool or res.crashed:
+            for f in tool[:3]:
+                undecided_reasons.append('tool: %s [%s]' % (f.message[:200], f.detail[:120]))
+            if res.crashed and not tool:
+                undecided_reasons.append('verus did not complete')
+        if len(R) == 0:
+            undecided_reasons.append('vacuous: no obligations generated')
+    # anything that makes the deductive argument incomplete voids its verdicts (a failed clause may be an artefact)
+    verdicts_valid = deductive_ok and not undecided_reasons
+
+    # ------------------------------------------------------------------ thorough extras / assumptions
+    extra_cov = {}
     kani_cov = {}
-    if PROPS[prop].get('kani'):
-        from . import kani
-        ok, kani_cov, why = kani.discharge(PROPS[prop]['kani'], info, tier)
-        if not ok:
-            undecided_reasons.append('assumption not discharged by Kani: ' + why)
+    if deductive_ok:
+        if tier == 'thorough' and verdicts_valid:
+            from . import thorough
+            thorough.run(prop, info, gen_path, R, seed, extra_cov, undecided_reasons, mine)
+        if PROPS[prop].get('kani'):
+            from . import kani
+            ok, kani_cov, why = kani.discharge(PROPS[prop]['kani'], info, tier)
+            if not ok:
+                undecided_reasons.append('assumption not discharged by Kani: ' + why)
 
     findings = load_findings()
     open_f = {(x['property'], x['obligation']): x for x in findings if x.get('status') == 'open'}
-    failed_ids = []
-    violations = []
-    known_hit = []
-    undecided = [f for f in mine if f.kind == 'undecided']
-    for f in mine:
-        if f.kind != 'semantic':
-            continue
-        if f.oid in failed_ids:
-            continue
-        failed_ids.append(f.oid)
-        k = open_f.get((prop, f.oid))
-        if k:
-            known_hit.append(k)
-        else:
-            violations.append(f)
+    violations, known_hit, undecided = [], [], []
+    if deductive_ok:
+        seen = set()
+        for f in mine:
+            if f.kind == 'undecided':
+                undecided.append(f)
+                continue
+            if f.kind != 'semantic' or f.oid in seen:
+                continue
+            seen.add(f.oid)
+            k = open_f.get((prop, f.oid))
+            if k:
+                known_hit.append(k)
+            elif verdicts_valid:
+                violations.append(f)
+            else:
+                undecided.append(f)
 
-    # --- evidence
-    n_ob = len(R)
-    n_failed = len(set(f.oid for f in mine if f.oid in R)) + len(set(f.oid for f in mine if f.oid not in R))
-    cov = evidence['coverage']
-    # cells listed as open known findings are reported, not claimed: they are excluded from the obligation count of the proof claim
-    known_ids = set(k['obligation'] for k in known_hit)
-    failed_in_R = set(f.oid for f in mine if f.oid in R)
-    cov['obligations'] = n_ob - len(known_ids & failed_in_R) + len(kani_cov)
-    cov['discharged'] = max(0, n_ob - len(failed_in_R)) + sum(1 for v in kani_cov.values() if v.get('ok'))
-    cov['excluded_known_findings'] = sorted(known_ids)
-    cov['by_back_end'] = {
-        'verus': {'obligations': n_ob, 'failed': sorted(set(f.oid for f in mine)), 'verified_items_total': res.verified, 'errors_total': res.errors,
-                  'solver_ms': res.times.get('smt', {}).get('total'), 'wall_ms': res.times.get('total'), 'version': res.version},
-        'kani': kani_cov,
-    }
-    cov['checker_cmd'] = 'cd build/%s && %s' % (prop, res.cmd)
-    cov['trusted_base'] = list(PROPS[prop]['assume'])
-    cov['technique'] = PROPS[prop]['technique']
-    by_kind = {}
-    for oid, ob in R.items():
-        by_kind[ob['kind']] = by_kind.get(ob['kind'], 0) + 1
-    cov['obligation_kinds'] = by_kind
-    fkeys = sorted(set(ob.get('fn') for ob in R.values() if ob.get('fn')))
-    cov['functions_under_contract'] = fkeys
-    cov['extraction'] = {
-        'files': [{'path': os.path.relpath(f['path'], REPO), 'sha256': f['sha256']} for f in info.files],
-        'bodies_verbatim': info.bodies_verbatim, 'bodies_digest': info.bodies_digest,
-        'dropped': summarize_dropped(info.dropped),
-        'added': 'ghost only: contracts from contracts/*.vspec, ghost accessors/invariants, derived spec copies, Structural derives, proof prologues in %d bodies' % sum(1 for f in info.functions if f['prologue']),
-        'derived_denotations': [d['fn'] for d in info.derived],
-        'unsafe_blocks': info.unsafe, 'loops_in_exec_code': info.loops,
-    }
-    samples = []
-    for oid in list(R)[:3] + list(R)[-3:]:
-        samples.append({'obligation': oid, 'kind': R[oid]['kind'], 'formula': R[oid].get('text', '')[:400]})
-    cov['samples'] = samples
-    cov['known_findings_hit'] = [k['obligation'] for k in known_hit]
-    cov['other_properties_failing'] = sorted(set(f.oid for f in other if f.oid))
-    cov.update(extra_cov)
-    if getattr(info, 'aux', None):
-        cov.update(info.aux)
-    evidence['violations'] = len(violations)
-
-    if n_ob == 0:
-        print('UNDECIDED property=%s reason=vacuous: no obligations generated' % prop)
-        evidence['level'] = 'other'
-        return finish(2, 'undecided: zero obligations')
-
-    # tool problems make everything undecided
-    if tool or res.crashed:
-        for f in tool[:5]:
-            print('UNDECIDED property=%s reason=tool: %s [%s]' % (prop, f.message[:300], f.detail[:200]))
-        if res.crashed and not tool:
-            print('UNDECIDED property=%s reason=verus did not complete' % prop)
-        evidence['level'] = 'other'
-        return finish(2, 'undecided: verifier could not process the generated file (%d tool diagnostics); nothing is claimed' % len(tool))
+    # ------------------------------------------------------------------ evidence
+    if deductive_ok:
+        n_ob = len(R)
+        known_ids = set(k['obligation'] for k in known_hit)
+        failed_in_R = set(f.oid for f in mine if f.oid in R)
+        cov['obligations'] = n_ob - len(known_ids & failed_in_R) + len(kani_cov)
+        cov['discharged'] = max(0, n_ob - len(failed_in_R)) + sum(1 for v in kani_cov.values() if v.get('ok'))
+        cov['excluded_known_findings'] = sorted(known_ids)
+        cov['by_back_end'] = {
+            'verus': {'obligations': n_ob, 'failed': sorted(set(f.oid for f in mine)), 'verified_items_total': res.verified, 'errors_total': res.errors,
+                      'solver_ms': res.times.get('smt', {}).get('total'), 'wall_ms': res.times.get('total'), 'version': res.version},
+            'kani': kani_cov,
+        }
+        cov['checker_cmd'] = 'cd build/%s && %s' % (prop, res.cmd)
+        cov['trusted_base'] = list(PROPS[prop]['assume'])
+        cov['technique'] = PROPS[prop]['technique']
+        by_kind = {}
+        for oid, ob in R.items():
+            by_kind[ob['kind']] = by_kind.get(ob['kind'], 0) + 1
+        cov['obligation_kinds'] = by_kind
+        cov['functions_under_contract'] = sorted(set(ob.get('fn') for ob in R.values() if ob.get('fn')))
+        cov['extraction'] = {
+            'files': [{'path': os.path.relpath(f['path'], REPO), 'sha256': f['sha256']} for f in info.files],
+            'bodies_verbatim': info.bodies_verbatim, 'bodies_digest': info.bodies_digest,
+            'dropped': summarize_dropped(info.dropped),
+            'added': 'ghost only: contracts from contracts/*.vspec, ghost accessors/invariants, derived spec copies, Structural derives, proof prologues in %d bodies' % sum(1 for f in info.functions if f['prologue']),
+            'derived_denotations': [d['fn'] for d in info.derived],
+            'unsafe_blocks': info.unsafe, 'loops_in_exec_code': info.loops,
+            'left_unverified_this_run': sorted(opaque), 'lost_anchors': [k for k, _ in info.lost] + info.lost_ghosts,
+        }
+        ids = list(R)
+        cov['samples'] = [{'obligation': oid, 'kind': R[oid]['kind'], 'formula': R[oid].get('text', '')[:400]} for oid in ids[:3] + ids[-3:]]
+        cov['known_findings_hit'] = [k['obligation'] for k in known_hit]
+        cov['other_properties_failing'] = sorted(set(f.oid for f in other if f.oid))
+        cov.update(extra_cov)
+        if getattr(info, 'aux', None):
+            cov.update(info.aux)
 
     for k in known_hit:
         print('KNOWN-FINDING: property=%s %s: %s' % (prop, k['obligation'], k.get('what', '')))
 
+    # ------------------------------------------------------------------ violations from the deductive verdict
+    real = []
     if violations:
         from . import cex
-        real = []
         for i, f in enumerate(violations):
-            extra = None
             if i < 12:
                 try:
                     extra = cex.find(prop, f, R, info)
@@ -322,39 +371,48 @@ def main(argv=None):
             else:
                 extra = {'counterexample': None, 'counterexample_search': 'skipped: more than 12 violations in this run'}
             if extra and extra.get('spurious'):
-                # the cell's whole finite domain was executed on the real code and satisfies the formula
-                undecided_reasons.append('verifier rejects %s but exhaustive native execution of that cell finds no failing input (solver incompleteness)' % f.oid)
+                # a complete stand-in executed the obligation's whole finite input domain on the real code and it holds
+                undecided_reasons.append('verifier rejects %s but complete native execution of its finite domain finds no failing input (solver incompleteness)' % f.oid)
                 continue
-            path = write_replay(prop, f, R, info, res, extra)
-            tail = '' if (extra and extra.get('counterexample')) else ' no-failing-input-found'
-            real.append((f, path, tail, extra))
-        for f, path, tail, extra in real:
-            if extra and extra.get('counterexample') and extra['counterexample'].get('description'):
-                print('  counterexample: %s' % extra['counterexample']['description'][:400])
-            print('VIOLATION property=%s replay=%s obligation=%s%s' % (prop, path, f.oid, tail))
+            path = write_replay(prop, f.oid, R.get(f.oid) or info.obligations.get((f.oid or '').split('/call:')[-1]), info, res, f, extra)
+            real.append((f.oid, path, extra))
+
+    # ------------------------------------------------------------------ stand-ins when the deductive verdict is undecided (and always in the thorough tier)
+    standin_cov = None
+    if not real and (undecided_reasons or undecided or tier == 'thorough'):
+        from . import standin
+        try:
+            hits, standin_cov = standin.run(prop, tier, known=set(o for (p, o) in open_f if p == prop))
+        except Exception as e:
+            hits, standin_cov = [], {'error': repr(e)}
+        cov['stand_ins'] = standin_cov
+        for h in hits[:12]:
+            path = write_replay(prop, h['obligation'], {'text': h.get('text', '')}, info, res, None, h['extra'])
+            real.append((h['obligation'], path, h['extra']))
+
+    if real:
+        for oid, path, extra in real:
+            ce = (extra or {}).get('counterexample')
+            if ce and ce.get('description'):
+                print('  counterexample: %s' % ce['description'][:500])
+            print('VIOLATION property=%s replay=%s obligation=%s%s' % (prop, path, oid, '' if ce else ' no-failing-input-found'))
         evidence['violations'] = len(real)
-        if real:
-            return finish(1)
+        return finish(1)
 
     if undecided or undecided_reasons:
         for f in undecided[:5]:
             print('UNDECIDED property=%s reason=%s obligation=%s' % (prop, f.message[:200], f.oid))
         for r in undecided_reasons:
-            print('UNDECIDED property=%s reason=%s' % (prop, r))
+            print('UNDECIDED property=%s reason=%s' % (prop, r[:400]))
+        if standin_cov is not None:
+            print('  stand-ins (bounded / exhaustive native runs on the real code) found no failing input: %s' % json.dumps(standin_cov.get('ran', standin_cov))[:600])
         evidence['level'] = 'other'
-        return finish(2, 'undecided: ' + '; '.join([f.message[:100] for f in undecided] + undecided_reasons))
+        return finish(2, ('undecided by the deductive verifier: ' + '; '.join([f.message[:100] for f in undecided] + undecided_reasons))[:1500]
+                      + ' | stand-ins found no failing input (not a proof)')
 
     print('OK property=%s tier=%s obligations=%d discharged=%d known_findings=%d verus_wall=%.1fs' % (
         prop, tier, cov['obligations'], cov['discharged'], len(known_hit), res.wall_s))
     return finish(0)
-
-
-def summarize_dropped(dropped):
-    s = {}
-    for d in dropped:
-        k = d['what'] if not d['what'].startswith('inner doc') else 'inner doc comment lines'
-        s[k] = s.get(k, 0) + 1
-    return s
 
 
 if __name__ == '__main__':
